@@ -1250,3 +1250,127 @@ func c08StartModeEnds(p *load.Program, r *core.Report) {
 		}
 	}
 }
+
+// c09RestartPassesIntensity: I4 — every restart is counted. In the strategy functions that react to
+// a child's termination, the answer "start this child (again)" — the action supActionStartChild, and
+// for the all-for-one/rest-for-one strategy the switch into a restarting mode — is given only after the
+// restart-intensity bookkeeping has run on that path (the call dominates the assignment). A fast
+// path that restarts without it ("nothing to stop first") restarts a failing child for ever.
+func c09RestartPassesIntensity(p *load.Program, r *core.Report) {
+	rule := "C09.I4 every-restart-is-counted"
+	r.Floor(rule, 3)
+	chk := p.Func("act", "", "supCheckRestartIntensity")
+	if chk == nil {
+		r.Unk(rule, "C09.I4|anchor", "", "", "supCheckRestartIntensity is found", "not found")
+		return
+	}
+	// the constant of supActionStartChild
+	var startConst int64 = -1
+	if pk := p.Pkg("act"); pk != nil {
+		if o := pk.Types.Scope().Lookup("supActionStartChild"); o != nil {
+			if c, ok := o.(*types.Const); ok {
+				if v, okv := constant.Int64Val(constant.ToInt(c.Val())); okv {
+					startConst = v
+				}
+			}
+		}
+	}
+	if startConst < 0 {
+		r.Unk(rule, "C09.I4|const", "", "", "the start-child action constant is found", "not found")
+		return
+	}
+	for _, f := range funcsOfPkgs(p, "act") {
+		if f.Parent() != nil || f.Name() != "childTerminated" {
+			continue
+		}
+		var calls []ssa.Instruction
+		eachInstr(f, func(in ssa.Instruction) {
+			if c, ok := in.(*ssa.Call); ok && staticCallee(c.Common()) == chk {
+				calls = append(calls, in)
+			}
+		})
+		n := 0
+		eachInstr(f, func(in ssa.Instruction) {
+			st, ok := in.(*ssa.Store)
+			if !ok {
+				return
+			}
+			fa, ok := st.Addr.(*ssa.FieldAddr)
+			if !ok {
+				return
+			}
+			ast := derefStruct(fa.X.Type())
+			if ast == nil || ast.Field(fa.Field).Name() != "do" {
+				return
+			}
+			if c, okc := constInt(st.Val); !okc || c != startConst {
+				return
+			}
+			n++
+			fn := fname(f)
+			key := fmt.Sprintf("C09.I4|%s|restart#%d", fn, n)
+			inst := "the restart of a terminated child is answered only after the restart was counted against the intensity"
+			dominated := false
+			for _, c := range calls {
+				if instrDominates(c, in) {
+					dominated = true
+				}
+			}
+			// the continuation of a restart that is in progress: the branch taken while the mode
+			// word has a value that is only ever assigned behind the bookkeeping (the restart was
+			// counted when it began; now the children that had to be stopped first are gone)
+			continued := false
+			if !dominated {
+				counted := map[int64]bool{}
+				uncounted := map[int64]bool{}
+				eachInstr(f, func(x ssa.Instruction) {
+					ms, ok := x.(*ssa.Store)
+					if !ok {
+						return
+					}
+					if _, path, okp := fieldPath(ms.Addr); !okp || len(path) != 1 || path[0] != "mode" {
+						return
+					}
+					c, okc := constInt(ms.Val)
+					if !okc {
+						return
+					}
+					dom := false
+					for _, cl := range calls {
+						if instrDominates(cl, x) {
+							dom = true
+						}
+					}
+					if dom {
+						counted[c] = true
+					} else {
+						uncounted[c] = true
+					}
+				})
+				eachInstr(f, func(x ssa.Instruction) {
+					b, ok := x.(*ssa.BinOp)
+					if !ok || b.Op != token.EQL {
+						return
+					}
+					c, okc := constInt(b.Y)
+					if !okc || !counted[c] || uncounted[c] {
+						return
+					}
+					if _, path, okp := fieldPath(b.X); !okp || len(path) != 1 || path[0] != "mode" {
+						return
+					}
+					if t, _, complete := boolEdges(b); complete && edgesDominate(t, in) {
+						continued = true
+					}
+				})
+			}
+			if continued {
+				r.OK(rule, key, fn, p.Pos(in.Pos()), inst, "continuation of a restart in progress: dominated by the test of a mode value that is only assigned behind supCheckRestartIntensity")
+			} else if dominated {
+				r.OK(rule, key, fn, p.Pos(in.Pos()), inst, "supCheckRestartIntensity dominates the assignment of the start-child action")
+			} else {
+				r.Bad(rule, key, fn, p.Pos(in.Pos()), inst, "this path answers 'start the child' without the intensity bookkeeping: a child that keeps failing on it is restarted for ever and its restarts are not counted for the others")
+			}
+		})
+	}
+}
